@@ -84,10 +84,65 @@ def coproc_cases(rng, tier):
     return out
 
 
+def return_cases(rng, tier):
+    """SUBS PC, LR (ARM: every data-processing opcode, immediate and register forms; Thumb) from every exception mode with
+    arbitrary SPSR contents: the CPSR installed, the instruction set resumed and the branch target"""
+    import stepgen
+    t = statelib.load_index(C.GEN)['tables']
+    out = []
+    n_cases = 150 if tier == 'quick' else 6000
+    ix = {n: t['sys_names'].index(n) for n in ('cpsr', 'scr', 'sctlr', 'nsacr')}
+    spsr_ix = [t['sys_names'].index(n) for n in ('spsr_svc', 'spsr_abt', 'spsr_und', 'spsr_mon', 'spsr_irq', 'spsr_fiq')]
+    for ci in range(n_cases):
+        cfgd = dict(statelib.DEFAULT_CFG)
+        cfgd['have_security_ext'] = rng.random() < 0.8
+        cfgd['arch_version'] = rng.choice([6, 7])
+        st = statelib.reset_state(t, cfg=cfgd, mem=[])
+        thumb = rng.random() < 0.35
+        mode = rng.choice([17, 18, 19, 23, 27] + ([22] if cfgd['have_security_ext'] else []))
+        st['sys'][ix['cpsr']] = (rng.getrandbits(4) << 28) | (rng.getrandbits(3) << 6) | (int(thumb) << 5) | mode
+        st['sys'][ix['scr']] = rng.getrandbits(6)
+        st['sys'][ix['nsacr']] = rng.getrandbits(1) << 19
+        st['sys'][ix['sctlr']] = (rng.getrandbits(1) << 27) | 0x00C50078
+        for i in spsr_ix:
+            st['sys'][i] = (rng.getrandbits(27) << 5) | rng.choice([16, 16, 17, 18, 19, 23, 27, 31, 22, rng.getrandbits(5)])
+        st['R'] = [rng.getrandbits(32) for _ in range(34)]
+        st['opcode'], st['opcode_len'] = (0xE0000000, 32) if not thumb else (0xF3DE8F00, 32)
+        hs = int(cfgd['have_security_ext'])
+        jaz = int(cfgd['jazelle_accepts_execution'])
+        cfg = statelib.coq_config(cfgd, t)
+        m = statelib.coq_machine(st)
+        if thumb:
+            imm = rng.choice([0, 4, 8, rng.getrandbits(8)])
+            fields = [0, imm, 14]
+            cls, module = 'SubsPcLrThumb', 'subs_pc_lr_thumb'
+            spec = f'(Ok tt (SUBS_PC_LR_thumb {jaz} {hs} 0 {m} {imm} 14))'
+        else:
+            rf = rng.choice([0, 1])
+            opc = rng.choice([0, 1, 2, 2, 3, 4, 5, 6, 7, 12, 13, 13, 14, 15])
+            n = rng.choice([14, 14, rng.randrange(15)])
+            mm = rng.randrange(15)
+            sh_t = rng.choice([1, 2, 3, 4, 5])
+            sh_n = 1 if sh_t == 5 else rng.choice([0, 1, 31, rng.randrange(32)]) if sh_t in (1, 4) else rng.randrange(1, 33)
+            if sh_t == 4 and sh_n == 0:
+                sh_n = 1
+            imm = rng.choice([0, 4, 8, rng.getrandbits(32)])
+            fields = [0, rf, n, opc, mm, ['enum', 'shift', 'SRType', sh_t], sh_n, imm]
+            cls, module = 'SubsPcLrArm', 'subs_pc_lr_arm'
+            spec = f'(Ok tt (SUBS_PC_LR_arm {jaz} {hs} 0 {m} {rf} {n} {opc} {mm} {sh_t} {sh_n} {imm}))'
+        args = ' '.join(str(x[3]) if isinstance(x, list) else str(x) for x in fields)
+        model = f'(enc_out enc_machine enc_unit ({cls}_execute {cfg} {args} {m}))'
+        out.append({'impl': {'kind': 'exec', 'state': st, 'module': module, 'cls': cls, 'fields': fields},
+                    'model': model, 'spec': f'(enc_out enc_machine enc_unit {spec})', 'label': 'return_' + cls, 'nontrivial': True})
+    return out
+
+
 def units():
     thms = ['C12_cpsr_write', 'C12_user_cannot_mask', 'C12_exec_bits_only_on_return', 'C12_never_bad_mode',
             'C12_no_monitor_from_nonsecure', 'C12_nmfi', 'C12_aw', 'C12_fw', 'C12_reserved']
     return [Unit('cpsr_write', thms, ['Proofs/CpsrWrite.v', 'Proofs/ArchFacts.v'],
                  ['registers.Registers.cpsr_write_by_instr'], cpsr_write_cases, IMPORTS, SPEC_IMPORTS),
             Unit('coproc_gate', ['C12_coproc_gate'], ['Proofs/CoprocProofs.v'], ['arm_v6.ArmV6.coproc_accepted'], coproc_cases,
-                 IMPORTS, SPEC_IMPORTS + '\nFrom ArmV Require Import Spec.Coproc.')]
+                 IMPORTS, SPEC_IMPORTS + '\nFrom ArmV Require Import Spec.Coproc.'),
+            Unit('exception_return', [], [], [], return_cases, IMPORTS + '\nFrom Gen Require Import exec.',
+                 SPEC_IMPORTS + '\nFrom ArmV Require Import Spec.MachineView Spec.Exceptions Spec.BlockFamily Spec.Return.')]
